@@ -76,6 +76,17 @@ fn compile(req: &json::JsonValue) -> json::JsonValue {
 #[cfg(not(rbpf_verif))]
 fn compile(_req: &json::JsonValue) -> json::JsonValue { json::object! { "status": "no_hooks" } }
 
+// compile (twice if asked) and report only status / repeatability (used in a forked child: a crash is an observation)
+fn compile_twice(req: &json::JsonValue) -> json::JsonValue {
+    let a = compile(req);
+    let mut out = json::object! { "status": a["status"].clone(), "msg": a["msg"].clone() };
+    if req["twice"].as_bool().unwrap_or(false) && a["status"] == "ok" {
+        let b = compile(req);
+        out["repeatable"] = (a["code"] == b["code"] && a["clif"] == b["clif"] && b["status"] == "ok").into();
+    }
+    out
+}
+
 #[cfg(rbpf_verif)]
 fn asm_table(_req: &json::JsonValue) -> json::JsonValue {
     let t = rbpf::assembler::verif_instruction_table();
@@ -185,7 +196,7 @@ pub fn dispatch(op: &str, req: &json::JsonValue) -> json::JsonValue {
         "history" => history(req),
         "call_helper" => call_helper(req),
         "load" => load(req),
-        "compile" => compile(req),
+        "compile" => if req["isolate"].as_bool().unwrap_or(false) { crate::isolated(req, compile_twice) } else { compile(req) },
         "asm_table" => asm_table(req),
         _ => json::object! { "status": "unknown_op", "op": op },
     }
